@@ -81,6 +81,29 @@ type parser struct {
 	scope      *scope // Current top of scope stack
 	wssStack   []bool
 	formatting *formatting
+
+	depth int // current nesting depth of expressions, types and blocks
+}
+
+// maxNestingDepth limits how deeply expressions, types and blocks can be
+// nested (and how long a chain of binary operators can be). The parser,
+// formatter and evaluator are recursive; without a limit, deeply nested
+// input exhausts the stack and crashes the process instead of producing
+// an error.
+const maxNestingDepth = 10000
+
+// enterNesting reports whether another nesting level is allowed and
+// counts it; every call must be paired with leaveNesting.
+func (p *parser) enterNesting() bool {
+	p.depth++
+	if p.depth == maxNestingDepth+1 {
+		p.appendError("nested too deeply")
+	}
+	return p.depth <= maxNestingDepth
+}
+
+func (p *parser) leaveNesting() {
+	p.depth--
 }
 
 func newParser(input string, builtins Builtins) *parser {
@@ -715,6 +738,13 @@ func (p *parser) parseIfBlock() *BlockStatement {
 
 func (p *parser) parseBlockWithEndTokens(endTokens map[lexer.TokenType]bool) *BlockStatement {
 	block := &BlockStatement{token: p.cur}
+	defer p.leaveNesting()
+	if !p.enterNesting() {
+		for p.cur.TokenType() != lexer.EOF {
+			p.advance() // give up on the rest of the input
+		}
+		return block
+	}
 	for !endTokens[p.cur.TokenType()] {
 		tok := p.cur
 		stmt := p.parseStatement()
@@ -1039,6 +1069,10 @@ func (p *parser) parseCondition() Node {
 // parseType parses `[]{}num` into
 // `{Name: ARRAY, Sub: {Name: MAP Sub: NUM_TYPE}}`.
 func (p *parser) parseType() *Type {
+	defer p.leaveNesting()
+	if !p.enterNesting() {
+		return nil
+	}
 	tt := p.cur.TokenType()
 	p.advance()
 	switch tt {
